@@ -2,6 +2,7 @@ import AmVerif.Props.C25
 import AmVerif.Proofs.MarksFullShape
 import AmVerif.Proofs.MarksFullErr
 import AmVerif.Proofs.MarksFullExpand
+import AmVerif.Proofs.MarksFullFastEq
 /-
   C25 — "Rich-text marks follow Peritext semantics and agree across reads: At every text position, a
   mark name's value is that of the highest-id mark of that name covering the position (a null value
@@ -18,9 +19,10 @@ import AmVerif.Proofs.MarksFullExpand
   name by name, an entry is extended when the last entry of that name has the same value and ends where
   the segment starts, null entries are dropped at the end.  Present-time reads of a text object go
   through the indexed `calculate_marks_fast` (op_set.rs) — same accumulator, segments cut at every mark
-  boundary of the mark index, nulls stripped before `add`; the code itself asserts `fast == slow` under
-  `slow_path_assertions`, and the correspondence run compares the model's walk with whichever path the
-  real `marks()` takes on every read.
+  boundary of the mark index, nulls stripped before `add`: `marksOfFast` (`Model/MarksFast`), which the
+  driver uses for exactly those reads.  `C25_marks_fast_eq_slow` proves the two equal whenever no mark op
+  of the object is overwritten; when one is, the real code's reads DISAGREE
+  (`C25_marks_fast_deleted_begin_refuted`).
 -/
 namespace AmVerif.Props.C25
 open AmVerif AmVerif.Crdt
@@ -285,9 +287,9 @@ theorem C25_expand_boundary (wf : Op → Nat) (ops : List Op) (target : Nat) (q 
     `m` is sticky or a sticky op follows `m` in the gap.  Reading: the expand setting of the boundary `m` is
     honoured (after `m` ⇔ `m` sticky, i.e. inside a begin with expand-before / outside an end without
     expand-after) iff `m` is sticky or NO sticky op follows it.  All boundaries of a gap are honoured iff no
-    non-sticky op precedes a sticky one — always the case for marks made one after the other on one replica
-    (the end/begin ops are themselves placed by this query), not always for concurrent marks: see
-    `C25_expand_boundary_refuted`. -/
+    non-sticky op precedes a sticky one.  Marks made one after the other on one replica end up in such an
+    order in every case tried (their end/begin ops are themselves placed by this query; not proved);
+    marks made concurrently need not: see `C25_expand_boundary_refuted`. -/
 theorem C25_expand_boundary_iff (wf : Op → Nat) (ops : List Op) (target : Nat) (q : IQ) (c : Key) (w : Nat)
     (p : Nat) (g₁ : List Op) (m : Op) (g₂ : List Op) (nxt : Op) (rest : List (Nat × Op))
     (hq1 : q.done = false) (hq2 : q.stopped = false) (hq3 : q.candidates = [])
@@ -384,5 +386,64 @@ example :
     (objRows expDoc2 (.id ⟨1, [0xaa]⟩)).map (·.id) = [⟨4, [0xaa]⟩, ⟨2, [0xaa]⟩, ⟨6, [0xbb]⟩, ⟨5, [0xaa]⟩, ⟨3, [0xaa]⟩, ⟨7, [0xbb]⟩] ∧
     (gapPushes 2 [expDoc2[7], expDoc2[4]]).map (fun l => (l.cursor, l.pos)) = [(.elem ⟨5, [0xaa]⟩, 4)] := by
   refine ⟨by decide, by decide, by decide, by decide, ⟨by decide, by decide⟩, by decide, by decide, by decide⟩
+
+/-- C25, `marks()` at present time.  A present-time `marks()` of a text object runs the indexed
+    `calculate_marks_fast` (`marksOfFast`: mark index + text index), every other `marks` read the walk
+    `calculate_marks_slow` (`marksOf`).  For an op set with distinct ids whose elements reference older
+    elements, in which NO MARK OP of the object is overwritten (`mark`/`unmark`/`splice_text`/`update_spans`
+    never make such an op; only a hand-built change can), both return the same list — so everything
+    `C25_marks_agree`, `C25_marks_shape`, `C25_marks_maximal` say about `marksOf` holds for the present-time
+    `marks()` too.  (The design's `fast_eq_slow`; the mark INDEX itself — that it lists exactly the mark ops
+    of the object in document order — is tied to the code by the run, finding F3 was there.) -/
+theorem C25_marks_fast_eq_slow (wf : Op → Nat) (ops : List Op) (obj : ObjId)
+    (hs : StrictIds ops) (hr : RefsSmaller ops)
+    (hvis : ∀ e ∈ rgaOrder ops obj, e.isMark = true → overwritten ops e = false) :
+    marksOfFast wf ops obj = marksOf wf ops obj := by
+  have hnd : (beginIds (itemsAll ops obj)).Nodup :=
+    List.Nodup.sublist (beginIds_itemsAll_sublist ops obj) (rgaOrder_ids_nodup hs hr obj)
+  unfold marksOfFast
+  rw [fastMarks_eq_slow wf _ hnd, itemsAll_eq_items ops obj hvis, marksOf_eq]
+
+/-- `richDoc` meets the hypotheses (no mark op is overwritten — the deleted op 4 is a text element), and the
+    indexed read returns the five ranges of the walk -/
+example :
+    StrictIds richDoc ∧ RefsSmaller richDoc ∧
+    (∀ e ∈ rgaOrder richDoc (.id ⟨1, [0xaa]⟩), e.isMark = true → overwritten richDoc e = false) ∧
+    marksOfFast (ow gOne .utf8 true) richDoc (.id ⟨1, [0xaa]⟩) =
+      [⟨[0x62], 2, 3, .bool true⟩, ⟨[0x62], 3, 5, .bool false⟩, ⟨[0x69], 2, 3, .int 1⟩, ⟨[0x69], 4, 5, .int 1⟩,
+       ⟨[0x78], 5, 9, .str [0x73]⟩] := by
+  decide
+
+/-- "ab" with `bold=true` over both characters (ops 4@01, 5@01), then a change of actor 02 that DELETES the
+    begin op 4@01 (op 6@02: `del`, pred 4@01) — a change no API call produces, but which `apply_changes`, `save`
+    and `load` accept. -/
+def delDoc : List Op :=
+  let T : ObjId := .id ⟨1, [0x01]⟩
+  [ ⟨⟨1, [0x01]⟩, .root, .map [0x74], false, .make .text, []⟩,
+    ⟨⟨2, [0x01]⟩, T, .head, true, .put (.str [0x61]), []⟩,
+    ⟨⟨3, [0x01]⟩, T, .elem ⟨2, [0x01]⟩, true, .put (.str [0x62]), []⟩,
+    ⟨⟨4, [0x01]⟩, T, .head, true, .markBegin [0x62] (.bool true) false, []⟩,
+    ⟨⟨5, [0x01]⟩, T, .elem ⟨3, [0x01]⟩, true, .markEnd false, []⟩,
+    ⟨⟨6, [0x02]⟩, T, .elem ⟨4, [0x01]⟩, false, .del, [⟨4, [0x01]⟩]⟩ ]
+
+/-- C25, "marks(), get_marks(i) and spans() report this same marking" is FALSE on a document in which a mark
+    op has been deleted (negated form on the witness `delDoc`; the real code does the same:
+    corpus/C25/EXP2-marks-fast-ignores-deleted-mark-op.probe.rs).  The present-time `marks()` still reports
+    bold on [0,2) — the mark index lists every mark op, visible or not — while `get_marks(0)`, `get_marks(1)`,
+    `spans()` and the walked `marks` (what `marks_at(heads)` runs) report no mark at all.  The hypothesis
+    `hvis` of `C25_marks_fast_eq_slow` is exactly what fails. -/
+theorem C25_marks_fast_deleted_begin_refuted :
+    let T : ObjId := .id ⟨1, [0x01]⟩
+    let wf := ow gOne .cp true
+    marksOfFast wf delDoc T = [⟨[0x62], 0, 2, .bool true⟩] ∧
+    marksOf wf delDoc T = [] ∧
+    getMarksAt wf delDoc T 0 = [] ∧ getMarksAt wf delDoc T 1 = [] ∧
+    spansOf (width .cp) delDoc T = [.text [0x61, 0x62] []] ∧
+    ¬ (∀ e ∈ rgaOrder delDoc T, e.isMark = true → overwritten delDoc e = false) ∧
+    -- before the deletion the reads agree
+    marksOfFast wf (delDoc.take 5) T = [⟨[0x62], 0, 2, .bool true⟩] ∧
+    marksOf wf (delDoc.take 5) T = [⟨[0x62], 0, 2, .bool true⟩] ∧
+    getMarksAt wf (delDoc.take 5) T 0 = [([0x62], .bool true)] := by
+  decide
 
 end AmVerif.Props.C25
